@@ -647,6 +647,28 @@ def eval_a(lab: Lab, rec, case: dict) -> typing.List[Fail]:
                                 f"the user's file contains 'user:{n}'",
                             )
                         )
+            # a user template of that name which exists but cannot be DECODED: an error (or the user's text) -- never silently the
+            # built-in template of the same name
+            if cfg == "all" and sorted(utop & b):
+                n = sorted(utop & b)[0]
+                for ud in mat.udirs:
+                    f = ud / f"{n}.j2"
+                    if f.exists():
+                        keep = f.read_bytes()
+                        f.write_bytes(b"\xff\xfe\xfa not utf-8 \xe9\n")
+                        try:
+                            try:
+                                got = identity(lab, lab.make_gen(cfg, mat), cfg, n + ".j2")
+                            except Exception as e:  # pylint: disable=broad-except
+                                got = f"<raised {type(e).__name__}>"
+                            tags.add("A.undecodable_user_template")
+                            if got.startswith("builtin:"):
+                                res.append((f"A|built-in-used-instead-of-user-template|cfg={cfg}|user-template-undecodable",
+                                            f"cfg={cfg} user={sorted(utop)} builtin={sorted(b)}: the user's {n}.j2 is not valid UTF-8; get_template gave {got!r} "
+                                            "(the built-in template) instead of an error"))
+                        finally:
+                            f.write_bytes(keep)
+                        break
         rec.event("A.lookups", lookups)
         rec.case(
             ("A", case),
